@@ -1,3 +1,300 @@
+import Driver.Util
 import Driver.Loop
-/- placeholder: the C02 view has no executable model yet -/
-def main : IO Unit := Drv.runLoop fun _ => .atom "bad-op"
+import PMV.Model.Elem
+/- line-protocol handlers for the C02 view (element semantics in the trap monad)
+
+   request:  (c02 <op> (<param> …) (<opd> …))
+   opd    := ((shape) isz (ints…) <mask>)     values are integers = 8 * value (exact dyadics),
+                                              isz components per element; mask := T | F | (bits…)
+   answer := (ok (shape) (<elem> …))  |  ValueError  |  (warn <kind>)
+   elem   := m  — masked   |  <rational>  — exact value  |  u — unmasked, value not rational
+             (for items: (<rational> …))
+-/
+namespace Drv.C02
+open PMV PMV.Elem Drv
+
+/-- exact square root where it exists; otherwise an arbitrary NON-ZERO value (never observed:
+    the answer line prints `u` for values that went through libm).  Keeps `sqrt s = 0 ↔ s = 0`. -/
+def qsqrt (x : Rat) : Rat :=
+  if x ≤ 0 then 0
+  else
+    let n := x.num.toNat; let d := x.den
+    let rn := Nat.sqrt n; let rd := Nat.sqrt d
+    if rn * rn == n && rd * rd == d then (rn : Rat) / (rd : Rat) else 1
+
+def fns : Fns Rat where
+  sqrt := qsqrt
+  log _ := 1
+  exp _ := 1
+  sin _ := 1
+  cos _ := 1
+  tan _ := 1
+  asin _ := 1
+  acos _ := 1
+  atan _ := 1
+  atan2 _ _ := 1
+  powr _ _ := 1
+  expMax := 709
+
+def det2 : List Rat → Rat
+  | [a, b, c, d] => a * d - b * c
+  | _ => 0
+def det3 : List Rat → Rat
+  | [a, b, c, d, e, f, g, h, i] => a * (e * i - f * h) - b * (d * i - f * g) + c * (d * h - e * g)
+  | _ => 0
+def inv2 (m : List Rat) : List Rat :=
+  match m with
+  | [a, b, c, d] => let t := det2 m; [d / t, -b / t, -c / t, a / t]
+  | _ => []
+def inv3 (m : List Rat) : List Rat :=
+  match m with
+  | [a, b, c, d, e, f, g, h, i] =>
+    let t := det3 m
+    [(e * i - f * h) / t, (c * h - b * i) / t, (b * f - c * e) / t,
+     (f * g - d * i) / t, (a * i - c * g) / t, (c * d - a * f) / t,
+     (d * h - e * g) / t, (b * g - a * h) / t, (a * e - b * d) / t]
+  | _ => []
+def lapack (n : Nat) : Lapack Rat :=
+  if n == 2 then ⟨det2, inv2, [1, 0, 0, 1]⟩ else ⟨det3, inv3, [1, 0, 0, 0, 1, 0, 0, 0, 1]⟩
+
+structure Opd where
+  shape : Shape
+  isz : Nat
+  vals : Array Int
+  mask : MaskRep
+
+def parseOpd : Sx → Option Opd
+  | .list [sh, isz, vs, m] => do
+    let shape ← sh.nats?
+    let isz ← isz.toNat?
+    let vals ← vs.ints?
+    let mask ← parseMask m
+    some ⟨shape, isz, vals.toArray, mask⟩
+  | _ => none
+
+def q8 (n : Int) : Rat := (n : Rat) / 8
+
+def Opd.cells (o : Opd) : Arr (Cell Rat) :=
+  ⟨o.shape, fun i => ⟨q8 o.vals[ravel o.shape i]!, o.mask.at o.shape i⟩⟩
+def Opd.vcells (o : Opd) : Arr (VCell Rat) :=
+  ⟨o.shape, fun i => ⟨(itemAt o.vals o.shape o.isz i).map q8, o.mask.at o.shape i⟩⟩
+
+def ratSx (r : Rat) : Sx :=
+  if r.den == 1 then .atom (toString r.num) else .atom (toString r.num ++ "/" ++ toString r.den)
+
+def warnSx : Warn → Sx
+  | .divZero => .list [.atom "warn", .atom "divZero"]
+  | .invalid => .list [.atom "warn", .atom "invalid"]
+  | .overflow => .list [.atom "warn", .atom "overflow"]
+
+/-- collect an array of trapped results: the first trap in row-major order wins -/
+def collect {α} (xs : List (Trap α)) : Trap (List α) :=
+  xs.foldr (fun t acc => match t with
+    | .ok a => (match acc with | .ok l => .ok (a :: l) | e => e)
+    | .warn w => .warn w
+    | .raise => .raise) (.ok [])
+
+def cellSx (exact : Bool) (c : Cell Rat) : Sx :=
+  if c.m then .atom "m" else if exact then ratSx c.v else .atom "u"
+def vcellSx (exact : Bool) (c : VCell Rat) : Sx :=
+  if c.m then .atom "m" else if exact then .list (c.vals.map ratSx) else .atom "u"
+
+def outT {α} (shape : Shape) (render : α → Sx) (r : Trap (List α)) : Sx :=
+  match r with
+  | .ok l => .list [.atom "ok", Sx.ofNats shape, .list (l.map render)]
+  | .warn w => warnSx w
+  | .raise => .atom "ValueError"
+
+def run1 (f : Cell Rat → Trap (Cell Rat)) (exact : Bool) (a : Opd) : Sx :=
+  let arr := a.cells.map f
+  outT arr.shape (cellSx exact) (collect arr.toList)
+
+def run2 (f : Cell Rat → Cell Rat → Trap (Cell Rat)) (exact : Bool) (a b : Opd) : Sx :=
+  match Arr.map2 f a.cells b.cells with
+  | some arr => outT arr.shape (cellSx exact) (collect arr.toList)
+  | none => .atom "ValueError"
+
+/-- the exponent as a whole number when it is one -/
+def intExp (e : Rat) : Option IntExp :=
+  if e.den == 1 then some ⟨decide (e.num < 0), e.num.natAbs⟩ else none
+
+/-- power: exact where the exponent is whole, `u` elsewhere -/
+def runPow (zeroD : Bool) (a b : Opd) : Sx :=
+  let f := fun (x e : Cell Rat) =>
+    let ie := intExp e.v
+    let r := if zeroD then pow0D fns 1 x e ie else powArr fns x e ie
+    match r with
+    | .ok c => Trap.ok (if c.m then Sx.atom "m" else if ie.isSome then ratSx c.v else Sx.atom "u")
+    | .warn w => .warn w
+    | .raise => .raise
+  match Arr.map2 f a.cells b.cells with
+  | some arr => outT arr.shape id (collect arr.toList)
+  | none => .atom "ValueError"
+
+def parseEasy : String → Option Easy
+  | "0" => some .p0 | "1" => some .p1 | "2" => some .p2 | "3" => some .p3 | "4" => some .p4
+  | "-1" => some .m1 | "half" => some .half | "mhalf" => some .mhalf | _ => none
+
+def bool? : Sx → Option Bool := Sx.toBool?
+
+def handle : List Sx → Sx
+  | [.atom "div_num", .list [c], .list [a]] =>
+    match c.toInt?, parseOpd a with
+    | some c, some a => run1 (fun x => divByNumber x (q8 c)) true a
+    | _, _ => err "operand"
+  | [.atom "floordiv_num", .list [c], .list [a]] =>
+    match c.toInt?, parseOpd a with
+    | some c, some a => run1 (fun x => floordivByNumber x (q8 c)) true a
+    | _, _ => err "operand"
+  | [.atom "mod_num", .list [c], .list [a]] =>
+    match c.toInt?, parseOpd a with
+    | some c, some a => run1 (fun x => modByNumber x (q8 c)) true a
+    | _, _ => err "operand"
+  | [.atom "rdiv_num", .list [c], .list [a]] =>
+    match c.toInt?, parseOpd a with
+    | some c, some a => run1 (rdivNumber (q8 c)) true a
+    | _, _ => err "operand"
+  | [.atom "div", .list [], .list [a, b]] =>
+    match parseOpd a, parseOpd b with
+    | some a, some b => run2 divByScalar true a b
+    | _, _ => err "operand"
+  | [.atom "floordiv", .list [], .list [a, b]] =>
+    match parseOpd a, parseOpd b with
+    | some a, some b => run2 floordivByScalar true a b
+    | _, _ => err "operand"
+  | [.atom "mod", .list [], .list [a, b]] =>
+    match parseOpd a, parseOpd b with
+    | some a, some b => run2 modByScalar true a b
+    | _, _ => err "operand"
+  | [.atom "recip", .list [nz], .list [a]] =>
+    match bool? nz, parseOpd a with
+    | some nz, some a => run1 (reciprocal nz) true a
+    | _, _ => err "operand"
+  | [.atom "sqrt", .list [ck], .list [a]] =>
+    match bool? ck, parseOpd a with
+    | some ck, some a => run1 (sqrt fns ck) false a
+    | _, _ => err "operand"
+  | [.atom "log", .list [ck], .list [a]] =>
+    match bool? ck, parseOpd a with
+    | some ck, some a => run1 (log fns ck) false a
+    | _, _ => err "operand"
+  | [.atom "exp", .list [ck], .list [a]] =>
+    match bool? ck, parseOpd a with
+    | some ck, some a => run1 (exp fns ck) false a
+    | _, _ => err "operand"
+  | [.atom "arcsin", .list [ck], .list [a]] =>
+    match bool? ck, parseOpd a with
+    | some ck, some a => run1 (arcsin fns false ck) false a
+    | _, _ => err "operand"
+  | [.atom "arccos", .list [ck], .list [a]] =>
+    match bool? ck, parseOpd a with
+    | some ck, some a => run1 (arcsin fns true ck) false a
+    | _, _ => err "operand"
+  | [.atom "total1", .list [], .list [a]] =>
+    match parseOpd a with
+    | some a => run1 (total1 fun _ => 1) false a
+    | none => err "operand"
+  | [.atom "arctan2", .list [], .list [a, b]] =>
+    match parseOpd a, parseOpd b with
+    | some a, some b => run2 (arctan2 fns) false a b
+    | _, _ => err "operand"
+  | [.atom "pow0D", .list [], .list [a, b]] =>
+    match parseOpd a, parseOpd b with
+    | some a, some b => runPow true a b
+    | _, _ => err "operand"
+  | [.atom "powArr", .list [], .list [a, b]] =>
+    match parseOpd a, parseOpd b with
+    | some a, some b => runPow false a b
+    | _, _ => err "operand"
+  | [.atom "powEasy", .list [.atom k], .list [a]] =>
+    match parseEasy k, parseOpd a with
+    | some k, some a =>
+      run1 (powEasy fns k) (match k with | .half | .mhalf => false | _ => true) a
+    | _, _ => err "operand"
+  | [.atom "element_div", .list [], .list [a, b]] =>
+    match parseOpd a, parseOpd b with
+    | some a, some b =>
+      match Arr.map2 elementDiv a.vcells b.vcells with
+      | some arr => outT arr.shape (vcellSx true) (collect arr.toList)
+      | none => .atom "ValueError"
+    | _, _ => err "operand"
+  | [.atom "vdiv", .list [], .list [a, b]] =>
+    match parseOpd a, parseOpd b with
+    | some a, some b =>
+      match Arr.map2 vdivByScalar a.vcells b.cells with
+      | some arr => outT arr.shape (vcellSx true) (collect arr.toList)
+      | none => .atom "ValueError"
+    | _, _ => err "operand"
+  | [.atom "unit", .list [], .list [a]] =>
+    match parseOpd a with
+    | some a =>
+      let arr := a.vcells.map (unit fns)
+      outT arr.shape (vcellSx false) (collect arr.toList)
+    | none => err "operand"
+  | [.atom "norm", .list [], .list [a]] =>
+    match parseOpd a with
+    | some a =>
+      let arr := a.vcells.map (norm fns)
+      outT arr.shape (cellSx false) (collect arr.toList)
+    | none => err "operand"
+  | [.atom "quat_recip", .list [], .list [a]] =>
+    match parseOpd a with
+    | some a =>
+      let arr := a.vcells.map quatReciprocal
+      outT arr.shape (vcellSx true) (collect arr.toList)
+    | none => err "operand"
+  | [.atom "mat_inverse", .list [nz], .list [a]] =>
+    match bool? nz, parseOpd a with
+    | some nz, some a =>
+      let n := if a.isz == 4 then 2 else 3
+      let arr := a.vcells.map (matInverse (lapack n) nz)
+      outT arr.shape (vcellSx true) (collect arr.toList)
+    | _, _ => err "operand"
+  -- derivatives: x carries key a (dx), y carries key b (dy); answer = result, d/da, d/db
+  | [.atom "div_d", .list [], .list [x, y, dx, dy]] =>
+    match parseOpd x, parseOpd y, parseOpd dx, parseOpd dy with
+    | some x, some y, some dx, some dy =>
+      let r := run2 divByScalar true x y
+      let da := run2 divDerivX true dx y
+      let xy : Opd → Opd → Option (Arr (Cell Rat × Cell Rat)) := fun p q =>
+        Arr.map2 (fun a b => (a, b)) p.cells q.cells
+      let db := match xy dy y with
+        | some dyy =>
+          match Arr.map2 (fun (a : Cell Rat) (p : Cell Rat × Cell Rat) => divDerivY a p.1 p.2)
+              x.cells dyy with
+          | some arr => outT arr.shape (cellSx true) (collect arr.toList)
+          | none => .atom "ValueError"
+        | none => .atom "ValueError"
+      -- a shapeless zero divisor is replaced by the replacement OBJECT (mask_ops.py:46-55),
+      -- which has no derivatives
+      let dropped := y.shape.isEmpty && Num.isZero (q8 y.vals[0]!)
+      .list [r, da, if dropped then .atom "no-deriv" else db]
+    | _, _, _, _ => err "operand"
+  | [.atom "recip_d", .list [], .list [x, dx]] =>
+    match parseOpd x, parseOpd dx with
+    | some x, some dx => .list [run1 (reciprocal false) true x, run2 reciprocalDeriv true dx x]
+    | _, _ => err "operand"
+  -- shapeless branch of mask_where (mask_ops.py:46-55): the replacement object is returned, so a
+  -- shapeless operand outside the domain loses its derivatives (`no_negs._derivs_` is empty)
+  | [.atom "log_d", .list [], .list [x, dx]] =>
+    match parseOpd x, parseOpd dx with
+    | some x, some dx =>
+      let dropped := x.shape.isEmpty && Num.le (q8 x.vals[0]!) (0 : Rat)
+      .list [run1 (log fns true) false x,
+             if dropped then .atom "no-deriv" else run2 logDeriv true dx x]
+    | _, _ => err "operand"
+  | [.atom "sqrt_d", .list [], .list [x, dx]] =>
+    match parseOpd x, parseOpd dx with
+    | some x, some dx =>
+      let dropped := x.shape.isEmpty && Num.lt (q8 x.vals[0]!) (0 : Rat)
+      .list [run1 (sqrt fns true) false x,
+             if dropped then .atom "no-deriv" else run2 (sqrtDeriv fns) false dx x]
+    | _, _ => err "operand"
+  | _ => err "c02-op"
+
+end Drv.C02
+
+def main : IO Unit := Drv.runLoop fun x =>
+  match x with
+  | .list (.atom "c02" :: rest) => Drv.C02.handle rest
+  | _ => .atom "bad-op"
